@@ -766,7 +766,13 @@ func signalRules(c *Ctx, p *Prog, rule string) {
 				key := fmt.Sprintf("%s#signal.%d", p.FnKey(fn), n)
 				_, isDefer := in.(*ssa.Defer)
 				ok2 := isDefer && entries[fn] != nil && b.Index == 0
-				r.Check(ok2, rule, key, p.InstrPos(in), kind+" as an unconditional defer of a goroutine entry", kind+" is not an unconditional defer of a goroutine entry: the signal can be raised early, twice or skipped")
+				why := kind + " is not an unconditional defer of a goroutine entry: the signal can be raised early, twice or skipped"
+				if ok2 && entries[fn].Parent != nil {
+					// a child / helper goroutine ends before its parent: a signal raised by its defers is early
+					ok2 = false
+					why = kind + " is raised by a goroutine that another goroutine of the discipline starts and joins: the signal is given while the parent (and the handlers it still has to join) are running"
+				}
+				r.Check(ok2, rule, key, p.InstrPos(in), kind+" as an unconditional defer of a goroutine entry", why)
 			}
 		}
 	}
